@@ -72,7 +72,7 @@ CLASS_LISTS = [[0, 1, 2], [2, 0, 1], [10, 20, 30], [30, 10, 20], ["a", "b", "c"]
 def cases(prop, tier, seed):
     rs = np.random.RandomState(seed + 11)
     out = []
-    reps = 10 if tier == "quick" else 60
+    reps = 10 if tier == "quick" else 300
     if prop in ("C11", "C12", "C13", "C09", "C06"):
         for name, zz in clf_zoo().items():
             if zz.get("only") and prop not in zz["only"]:
@@ -485,6 +485,16 @@ def run_c15(case, fail):
         return
     if case["model"] == "NadarayaWatson" and n_lab == 0:
         return
+    if z.get("sk_normal") and n_lab:
+        # the wrapper relays the predictive std of the scikit-learn estimator; when THAT estimator degenerates numerically (BayesianRidge with
+        # as many weighted samples as coefficients returns NaN) there is no predictive distribution to be coherent with
+        try:
+            with np.errstate(all="ignore"):
+                _, s0 = m.estimator_.predict(Xq, return_std=True)
+            if not np.all(np.isfinite(s0)) or np.any(np.asarray(s0) <= 0):
+                return
+        except Exception:
+            return
     claimed = z.get("proper", False) or z.get("sk_normal", False) or not z["prob"] or n_lab >= 2 or \
         (case["model"] == "NadarayaWatson" and n_lab >= 1)
     try:
